@@ -109,7 +109,8 @@ def apply_jsonpath(input, path="$", throw_exception_on_failed_match=True):
     is matched. The code below attempts to handle that array slice edge case.
     """
     if len(result) == 1:
-        path_has_slice = re.search(r"\[.*:.*\]", path)
+        # Array slice e.g. [start:end:step], not a bracket key that contains a colon
+        path_has_slice = re.search(r"\[\s*-?\d*\s*:[\s\d:-]*\]", path)
         if not path_has_slice:
             return result[0]
 
